@@ -23,18 +23,22 @@ static void verif_fin_case(blake3_hasher *h, uint8_t len, _Bool pending) {
   __CPROVER_assert(VERIF_GCPU_OK, "feature cache stays well-formed");
 }
 
+/* VERIF_FIN_CASES: bit k set = case k is part of this unit (one DFCC-replaced callee call costs about
+ * 5 M clauses, so the cases are spread over two units) */
+#ifndef VERIF_FIN_CASES
+#define VERIF_FIN_CASES 0x7f
+#endif
+#define CASE(k, len, pending) if ((VERIF_FIN_CASES >> (k)) & 1) { if (which == (k)) verif_fin_case(&h, len, pending); }
 void harness(void) {
   VERIF_PROLOGUE();
   blake3_hasher h;
   uint8_t which;
-  switch (which) {
-  case 0: verif_fin_case(&h, 0, 0); break;
-  case 1: verif_fin_case(&h, 0, 1); break;
-  case 2: verif_fin_case(&h, 1, 1); break;
-  case 3: verif_fin_case(&h, 2, 1); break;
-  case 4: verif_fin_case(&h, 3, 1); break;
-  case 5: verif_fin_case(&h, 2, 0); break;
-  default: verif_fin_case(&h, 3, 0); break;
-  }
+  CASE(0, 0, 0)   /* empty hasher: the (empty) chunk is the root */
+  CASE(1, 0, 1)   /* a partial first chunk is the root */
+  CASE(2, 2, 0)   /* no bytes pending: root = parent(S0, S1) */
+  CASE(3, 1, 1)   /* root = parent(S0, CV(chunk)) */
+  CASE(4, 3, 0)   /* root = parent(S0, P(S1, S2)) */
+  CASE(5, 2, 1)   /* root = parent(S0, P(S1, CV(chunk))) */
+  CASE(6, 3, 1)   /* root = parent(S0, P(S1, P(S2, CV(chunk)))) */
   VERIF_REACHABLE();
 }
